@@ -25,7 +25,9 @@ Local Open Scope Z_scope.
 
 Inductive exn :=
 | ValueErrorSkip      (* ValueError("Can't skip %d bytes in buffer of %d bytes") *)
-| ValueErrorClosed.   (* ValueError("I/O operation on closed file") *)
+| ValueErrorClosed    (* ValueError("I/O operation on closed file") *)
+| OSFault.            (* an exception raised by the operating system / allocator inside a file
+                         operation (OSError EMFILE / ENOSPC / EACCES, MemoryError): see [fault] *)
 
 Inductive outcome (A : Type) := Ok (a : A) | Exn (e : exn).
 Arguments Ok {A} a.
@@ -71,24 +73,55 @@ Inductive kind := KBio | KTmp | KRo.   (* BytesIOBasedBuffer | TempfileBasedBuff
 
 Record fbuf := mkfbuf { fb_kind : kind; fb_file : file; fb_remain : Z }.
 
+(* Operating-system faults at a representation change.  The operations of
+   OverflowableBuffer take a [fault] that says what the environment does while
+   the operation constructs a new file based buffer:
+     FNone       nothing fails (the ordinary semantics; [step] is [step_f FNone]);
+     FCtor k     creating the file object of a buffer of kind k raises
+                 (KTmp: TemporaryFile() with EMFILE / ENOSPC / EACCES; KBio: BytesIO()
+                 with MemoryError) -- self.newfile() / BytesIO() is evaluated before
+                 anything else happens in the constructor;
+     FCopyWrite  the first file.write(data) of the copy loop raises (ENOSPC while
+                 spilling to disk); the source file has been rewound and read by then.
+   The model copies in one chunk, so FCopyWrite stands for the real code whenever
+   the source holds at most COPY_BYTES bytes. *)
+Inductive fault := FNone | FCtor (k : kind) | FCopyWrite.
+
+Definition kind_eqb (a b : kind) : bool :=
+  match a, b with KBio, KBio | KTmp, KTmp | KRo, KRo => true | _, _ => false end.
+
+Definition ctor_fails (flt : fault) (k : kind) : bool :=
+  match flt with FCtor k' => kind_eqb k' k | _ => false end.
+
+(* the constructor either returns the new buffer or raises, and then the source
+   buffer (which the Python mutates in place) is what it has become *)
+Inductive init_result := InitOk (nb : fbuf) | InitExn (e : exn) (old : option fbuf).
+
 (* FileBasedBuffer.__init__(file, from_buffer) with file = self.newfile()
    (BytesIOBasedBuffer(from_buffer) / TempfileBasedBuffer(from_buffer));
    the COPY_BYTES loop copies the whole source file *)
-Definition fb_init (k : kind) (from_buffer : option fbuf) : outcome fbuf :=
+Definition fb_init (flt : fault) (k : kind) (from_buffer : option fbuf) : init_result :=
+  if ctor_fails flt k then InitExn OSFault from_buffer   (* self.newfile() / BytesIO() raises *)
+  else
   let file := newfile in
   match from_buffer with
-  | None => Ok (mkfbuf k file 0)                       (* class attribute remain = 0 *)
+  | None => InitOk (mkfbuf k file 0)                   (* class attribute remain = 0 *)
   | Some ob =>
     let from_file := fb_file ob in                     (* from_buffer.getfile() *)
-    if f_closed from_file then Exn ValueErrorClosed else
+    if f_closed from_file then InitExn ValueErrorClosed from_buffer else
     let read_pos := f_tell from_file in
     let from_file := f_seek_set from_file 0 in
     let '(data, from_file) := f_read_all from_file in  (* while True: read(COPY_BYTES) ... write *)
-    let file := f_write file data in
-    let remain := Z.of_nat (f_tell file) - Z.of_nat read_pos in
-    let from_file := f_seek_set from_file read_pos in
-    let file := f_seek_set file read_pos in
-    Ok (mkfbuf k file remain)
+    match flt, data with
+    | FCopyWrite, _ :: _ =>                            (* file.write(data) raises: nothing is restored *)
+      InitExn OSFault (Some (mkfbuf (fb_kind ob) from_file (fb_remain ob)))
+    | _, _ =>
+      let file := f_write file data in
+      let remain := Z.of_nat (f_tell file) - Z.of_nat read_pos in
+      let from_file := f_seek_set from_file read_pos in
+      let file := f_seek_set file read_pos in
+      InitOk (mkfbuf k file remain)
+    end
   end.
 
 Definition fb_len (b : fbuf) : Z := fb_remain b.
@@ -159,25 +192,27 @@ Definition o_len (o : obuf) : Z :=
   | None => lenZ (ob_strbuf o)
   end.
 
-(* oldbuf.close() happens on an object that is dropped; it is not part of the state *)
-Definition o_set_small_buffer (o : obuf) : obuf * outcome fbuf :=
+(* oldbuf.close() happens on an object that is dropped; it is not part of the
+   state.  When the constructor raises, self.buf has not been assigned: it is
+   still the old buffer (as the failed constructor left it). *)
+Definition o_set_small_buffer (flt : fault) (o : obuf) : obuf * outcome fbuf :=
   let oldbuf := ob_buf o in
-  match fb_init KBio oldbuf with
-  | Exn e => (o, Exn e)
-  | Ok nb => (mkobuf (Some nb) (ob_strbuf o) false, Ok nb)
+  match fb_init flt KBio oldbuf with
+  | InitExn e old => (mkobuf old (ob_strbuf o) (ob_overflowed o), Exn e)
+  | InitOk nb => (mkobuf (Some nb) (ob_strbuf o) false, Ok nb)
   end.
 
-Definition o_set_large_buffer (o : obuf) : obuf * outcome fbuf :=
+Definition o_set_large_buffer (flt : fault) (o : obuf) : obuf * outcome fbuf :=
   let oldbuf := ob_buf o in
-  match fb_init KTmp oldbuf with
-  | Exn e => (o, Exn e)
-  | Ok nb => (mkobuf (Some nb) (ob_strbuf o) true, Ok nb)
+  match fb_init flt KTmp oldbuf with
+  | InitExn e old => (mkobuf old (ob_strbuf o) (ob_overflowed o), Exn e)
+  | InitOk nb => (mkobuf (Some nb) (ob_strbuf o) true, Ok nb)
   end.
 
-Definition o_create_buffer (overflow : N) (o : obuf) : obuf * outcome fbuf :=
+Definition o_create_buffer (flt : fault) (overflow : N) (o : obuf) : obuf * outcome fbuf :=
   let strbuf := ob_strbuf o in
   let '(o1, r) := if lenZ strbuf >=? Z.of_N overflow
-                  then o_set_large_buffer o else o_set_small_buffer o in
+                  then o_set_large_buffer flt o else o_set_small_buffer flt o in
   match r with
   | Exn e => (o1, Exn e)
   | Ok buf =>
@@ -192,7 +227,7 @@ Definition o_create_buffer (overflow : N) (o : obuf) : obuf * outcome fbuf :=
   end.
 
 (* the part of append() after "buf" is known: buf.append(s) and the overflow test *)
-Definition o_append_tail (overflow : N) (s : bytes) (o1 : obuf) (buf : fbuf) : obuf * outcome unit :=
+Definition o_append_tail (flt : fault) (overflow : N) (s : bytes) (o1 : obuf) (buf : fbuf) : obuf * outcome unit :=
   match fb_append buf s with
   | Exn e => (o1, Exn e)
   | Ok buf' =>
@@ -200,7 +235,7 @@ Definition o_append_tail (overflow : N) (s : bytes) (o1 : obuf) (buf : fbuf) : o
     let sz := fb_len buf' in
     if negb (ob_overflowed o2) then
       if sz >=? Z.of_N overflow then
-        match o_set_large_buffer o2 with
+        match o_set_large_buffer flt o2 with
         | (o3, Exn e) => (o3, Exn e)
         | (o3, Ok _) => (o3, Ok tt)
         end
@@ -208,18 +243,21 @@ Definition o_append_tail (overflow : N) (s : bytes) (o1 : obuf) (buf : fbuf) : o
     else (o2, Ok tt)
   end.
 
-Definition o_append (limit overflow : N) (o : obuf) (s : bytes) : obuf * outcome unit :=
+(* append() on plain bytes may construct two buffers (_create_buffer, then the
+   overflow test): FCtor k hits the first construction of kind k, FCopyWrite the
+   first construction that copies, which is the second one. *)
+Definition o_append (flt : fault) (limit overflow : N) (o : obuf) (s : bytes) : obuf * outcome unit :=
   match ob_buf o with
   | None =>
     let strbuf := ob_strbuf o in
     if lenZ strbuf + lenZ s <? Z.of_N limit then
       (mkobuf None (strbuf ++ s) (ob_overflowed o), Ok tt)
     else
-      match o_create_buffer overflow o with
+      match o_create_buffer flt overflow o with
       | (o1, Exn e) => (o1, Exn e)
-      | (o1, Ok buf) => o_append_tail overflow s o1 buf
+      | (o1, Ok buf) => o_append_tail flt overflow s o1 buf
       end
-  | Some buf => o_append_tail overflow s o buf
+  | Some buf => o_append_tail flt overflow s o buf
   end.
 
 (* return buf.get(numbytes, skip) *)
@@ -229,13 +267,13 @@ Definition o_get_tail (numbytes : Z) (skip : bool) (o1 : obuf) (buf : fbuf) : ob
   | Ok (buf', res) => (mkobuf (Some buf') (ob_strbuf o1) (ob_overflowed o1), Ok res)
   end.
 
-Definition o_get (overflow : N) (o : obuf) (numbytes : Z) (skip : bool) : obuf * outcome bytes :=
+Definition o_get (flt : fault) (overflow : N) (o : obuf) (numbytes : Z) (skip : bool) : obuf * outcome bytes :=
   match ob_buf o with
   | None =>
     let strbuf := ob_strbuf o in
     if negb skip then (o, Ok strbuf)
     else
-      match o_create_buffer overflow o with
+      match o_create_buffer flt overflow o with
       | (o1, Exn e) => (o1, Exn e)
       | (o1, Ok buf) => o_get_tail numbytes skip o1 buf
       end
@@ -249,23 +287,23 @@ Definition o_skip_tail (numbytes : N) (o1 : obuf) (buf : fbuf) : obuf * outcome 
   | Ok buf' => (mkobuf (Some buf') (ob_strbuf o1) (ob_overflowed o1), Ok tt)
   end.
 
-Definition o_skip (overflow : N) (o : obuf) (numbytes : N) (allow_prune : bool) : obuf * outcome unit :=
+Definition o_skip (flt : fault) (overflow : N) (o : obuf) (numbytes : N) (allow_prune : bool) : obuf * outcome unit :=
   match ob_buf o with
   | None =>
     if allow_prune && (Z.of_N numbytes =? lenZ (ob_strbuf o)) then
       (mkobuf None [] (ob_overflowed o), Ok tt)
     else
-      match o_create_buffer overflow o with
+      match o_create_buffer flt overflow o with
       | (o1, Exn e) => (o1, Exn e)
       | (o1, Ok buf) => o_skip_tail numbytes o1 buf
       end
   | Some buf => o_skip_tail numbytes o buf
   end.
 
-Definition o_getfile (overflow : N) (o : obuf) : obuf * outcome file :=
+Definition o_getfile (flt : fault) (overflow : N) (o : obuf) : obuf * outcome file :=
   match ob_buf o with
   | None =>
-    match o_create_buffer overflow o with
+    match o_create_buffer flt overflow o with
     | (o1, Exn e) => (o1, Exn e)
     | (o1, Ok buf) => (o1, Ok (fb_getfile buf))
     end
@@ -298,15 +336,20 @@ Inductive out :=
 Definition lift {A} (f : A -> out) (r : outcome A) : out :=
   match r with Ok a => f a | Exn e => RExn e end.
 
-Definition step (limit overflow : N) (o : obuf) (p : op) : obuf * out :=
+(* one operation; [flt] is what the environment does while the operation
+   constructs a new file based buffer, should it construct one *)
+Definition step_f (flt : fault) (limit overflow : N) (o : obuf) (p : op) : obuf * out :=
   match p with
-  | OAppend s => let '(o', r) := o_append limit overflow o s in (o', lift (fun _ => RUnit) r)
-  | OGet n sk => let '(o', r) := o_get overflow o n sk in (o', lift RBytes r)
-  | OSkip n ap => let '(o', r) := o_skip overflow o n ap in (o', lift (fun _ => RUnit) r)
+  | OAppend s => let '(o', r) := o_append flt limit overflow o s in (o', lift (fun _ => RUnit) r)
+  | OGet n sk => let '(o', r) := o_get flt overflow o n sk in (o', lift RBytes r)
+  | OSkip n ap => let '(o', r) := o_skip flt overflow o n ap in (o', lift (fun _ => RUnit) r)
   | OLen => (o, RLen (o_len o))
-  | OGetFile => let '(o', r) := o_getfile overflow o in (o', lift RFile r)
+  | OGetFile => let '(o', r) := o_getfile flt overflow o in (o', lift RFile r)
   | OClose => (o_close o, RUnit)
   end.
+
+(* the ordinary semantics: nothing fails *)
+Definition step (limit overflow : N) (o : obuf) (p : op) : obuf * out := step_f FNone limit overflow o p.
 
 (* a history: the state reached and the outputs, in order *)
 Fixpoint run (limit overflow : N) (o : obuf) (ops : list op) : obuf * list out :=
